@@ -584,6 +584,367 @@ theorem inv_init (cfg : Cfg) : Inv cfg (init cfg) := by
         simp only [this]
         exact ih (by simpa [h] using hm)
 
+/-! ## overlapping operations -/
+
+/-- an update of the struct either is omitted (nothing changes, the struct holds this value already) or brings all members along -/
+theorem announceStruct_cases (cfg : Cfg) (d : Dict) (s : St) (hd : wf cfg d = true) :
+    (announceStruct cfg d s = s ∧ s.struct = d) ∨ Inv cfg (announceStruct cfg d s) := by
+  by_cases ho : omittedS cfg (s.struct == d) s.sP = true
+  · left
+    exact ⟨by unfold announceStruct; rw [if_pos ho], by simpa using omittedS_same _ _ _ ho⟩
+  · right
+    unfold announceStruct
+    rw [if_neg ho]
+    have hkeys := (wf_iff cfg d).1 hd
+    have hsome : ∀ m ∈ cfg.members, ∃ x, d.lookup m = some x := fun m hm =>
+      lookup_isSome_of_mem_keys d m (by rw [hkeys]; exact hm)
+    refine ⟨by simpa using hd, fun m hm => ?_⟩
+    obtain ⟨x, hx⟩ := hsome m hm
+    refine ⟨x, by simpa using hx, ?_⟩
+    simp only [emit_mem]
+    rw [setMembers_lookup cfg cfg.members d hsome]
+    simp [hm, hx]
+
+/-- the state while a generated struct method is in progress and other threads assign: the struct is well-formed, and every
+member parameter shows the value the struct has for it, or the result the access has obtained for it so far -/
+def Loose (cfg : Cfg) (s : St) (result : Dict) : Prop :=
+  wf cfg s.struct = true ∧ ∀ k ∈ cfg.members, ∃ y, s.struct.lookup k = some y ∧
+    (s.mem.lookup k = some y ∨ ∃ x, result.lookup k = some x ∧ s.mem.lookup k = some x)
+
+theorem loose_of_inv (cfg : Cfg) (s : St) (result : Dict) (h : Inv cfg s) : Loose cfg s result :=
+  ⟨h.1, fun k hk => by obtain ⟨y, h1, h2⟩ := h.2 k hk; exact ⟨y, h1, Or.inl h2⟩⟩
+
+theorem loose_congr (cfg : Cfg) {s t : St} (result : Dict) (h1 : t.struct = s.struct) (h2 : t.mem = s.mem)
+    (h : Loose cfg s result) : Loose cfg t result := by
+  unfold Loose; rw [h1, h2]; exact h
+
+/-- where the struct already holds every result obtained, the loose agreement is agreement -/
+theorem agree_of_loose (cfg : Cfg) (s : St) (result : Dict) (h : Loose cfg s result)
+    (hr : ∀ k x, result.lookup k = some x → s.struct.lookup k = some x) : Inv cfg s := by
+  refine ⟨h.1, fun k hk => ?_⟩
+  obtain ⟨y, hy, hor⟩ := h.2 k hk
+  rcases hor with hm | ⟨x, hx, hm⟩
+  · exact ⟨y, hy, hm⟩
+  · have := hr k x hx
+    rw [hy] at this
+    exact ⟨y, hy, by rw [hm, this]⟩
+
+theorem loose_assignStruct (cfg : Cfg) (d : Dict) (s : St) (result : Dict) (h : Loose cfg s result) :
+    Loose cfg (assignStruct cfg d s) result := by
+  unfold assignStruct
+  split
+  · rename_i hd
+    rcases announceStruct_cases cfg d s hd with ⟨he, _⟩ | hi
+    · rw [he]; exact h
+    · exact loose_of_inv cfg _ result hi
+  · exact loose_congr cfg result (by simp) (by simp) h
+
+theorem loose_announceMember (cfg : Cfg) (m : String) (x : Val) (s : St) (result : Dict) (hm : m ∈ cfg.members)
+    (h : Loose cfg s result) : Loose cfg (announceMember cfg m x s) result := by
+  unfold announceMember
+  split
+  · exact h
+  · apply loose_congr cfg result (emit_struct _ _) (emit_mem _ _)
+    have hwf : wf cfg (s.struct.set m x) = true := wf_set cfg _ m x h.1 hm
+    unfold assignStruct
+    rw [if_pos hwf]
+    rcases announceStruct_cases cfg (s.struct.set m x) { s with mem := s.mem.set m x, mP := clearM s m } hwf with ⟨he, hs⟩ | hi
+    · rw [he]
+      have hs' : s.struct = s.struct.set m x := hs
+      refine ⟨h.1, fun k hk => ?_⟩
+      obtain ⟨y, hy, hor⟩ := h.2 k hk
+      by_cases hkm : k = m
+      · have hx : s.struct.lookup k = some x := by rw [hs', lookup_set]; simp [hkm]
+        exact ⟨x, hx, Or.inl (by show (s.mem.set m x).lookup k = some x; rw [lookup_set]; simp [hkm])⟩
+      · refine ⟨y, hy, ?_⟩
+        show (s.mem.set m x).lookup k = some y ∨ ∃ x', result.lookup k = some x' ∧ (s.mem.set m x).lookup k = some x'
+        rw [lookup_set]; simp only [hkm, if_false]; exact hor
+    · exact loose_of_inv cfg _ result hi
+
+theorem loose_astep (cfg : Cfg) (a : AOp) (s : St) (result : Dict) (h : Loose cfg s result) : Loose cfg (astep cfg s a) result := by
+  cases a with
+  | assignStruct v => exact loose_assignStruct cfg v s result h
+  | assignMember m v =>
+    simp only [astep]
+    by_cases hm : m ∈ cfg.members
+    · have : cfg.members.contains m = true := by simpa using hm
+      rw [if_pos this]; exact loose_announceMember cfg m v s result hm h
+    · have : cfg.members.contains m = false := by simpa using hm
+      simp only [this, Bool.false_eq_true, if_false]; exact h
+
+theorem loose_interrupt (cfg : Cfg) (result : Dict) (ops : List AOp) : ∀ s, Loose cfg s result → Loose cfg (interrupt cfg ops s) result := by
+  unfold interrupt
+  induction ops with
+  | nil => intro s h; exact h
+  | cons a ops ih => intro s h; exact ih _ (loose_astep cfg a s result h)
+
+theorem inv_astep (cfg : Cfg) (a : AOp) (s : St) (h : Inv cfg s) : Inv cfg (astep cfg s a) := by
+  cases a with
+  | assignStruct v =>
+    simp only [astep]
+    unfold assignStruct
+    split
+    · rename_i hd; exact inv_announceStruct cfg v s hd (fun e => by rw [← e]; exact h.2)
+    · exact inv_congr cfg (by simp) (by simp) h
+  | assignMember m v =>
+    simp only [astep]
+    by_cases hm : m ∈ cfg.members
+    · have : cfg.members.contains m = true := by simpa using hm
+      rw [if_pos this]; exact inv_announceMember cfg m v s h hm
+    · have : cfg.members.contains m = false := by simpa using hm
+      simp only [this, Bool.false_eq_true, if_false]; exact h
+
+theorem inv_interrupt (cfg : Cfg) (ops : List AOp) : ∀ s, Inv cfg s → Inv cfg (interrupt cfg ops s) := by
+  unfold interrupt
+  induction ops with
+  | nil => intro s h; exact h
+  | cons a ops ih => intro s h; exact ih _ (inv_astep cfg a s h)
+
+/-- loop invariant of the generated struct methods with other threads in between: `done` = the members treated so far -/
+def LInvO (cfg : Cfg) (done : List String) (l : Loop) : Prop :=
+  Loose cfg l.st l.result ∧ l.result.map Prod.fst = done.take l.result.length ∧
+  (l.stop = false → l.result.length = done.length)
+
+theorem linvO_keep (cfg : Cfg) (done : List String) (m : String) (l l' : Loop) (h : LInvO cfg done l)
+    (hl : Loose cfg l'.st l.result) (hres : l'.result = l.result) (hstop : l'.stop = true) : LInvO cfg (done ++ [m]) l' := by
+  obtain ⟨_, h2, _⟩ := h
+  refine ⟨by rw [hres]; exact hl, ?_, fun hc => by rw [hstop] at hc; cases hc⟩
+  have hle : l.result.length ≤ done.length := by
+    have := congrArg List.length h2
+    simp only [List.length_map, List.length_take] at this
+    omega
+  rw [hres, h2, List.take_append_of_le_length hle]
+
+theorem linvO_fresh (cfg : Cfg) (done : List String) (m : String) (l : Loop) (h : LInvO cfg done l) (hm : m ∉ done) :
+    l.result.lookup m = none := by
+  apply lookup_none_of_not_mem_keys
+  rw [h.2.1]
+  intro hc
+  exact hm (List.mem_of_mem_take hc)
+
+theorem linvO_push (cfg : Cfg) (done : List String) (m : String) (x : Val) (l l' : Loop) (h : LInvO cfg done l)
+    (hs : l.stop = false) (hl : Loose cfg l'.st (l.result ++ [(m, x)])) (hres : l'.result = l.result ++ [(m, x)]) :
+    LInvO cfg (done ++ [m]) l' := by
+  obtain ⟨_, h2, h3⟩ := h
+  have hlen := h3 hs
+  refine ⟨by rw [hres]; exact hl, ?_, fun _ => by simp [hres, hlen]⟩
+  rw [hres]
+  simp only [List.map_append, List.map_cons, List.map_nil, List.length_append, List.length_cons, List.length_nil]
+  rw [h2, hlen, List.take_of_length_le (by simp), List.take_of_length_le (by simp)]
+
+/-- the access announces the value `x` it obtained for `m`: the member now shows the result -/
+theorem loose_push_set (cfg : Cfg) (s : St) (result : Dict) (m : String) (x : Val) (h : Loose cfg s result)
+    (hn : result.lookup m = none) : Loose cfg (announceMemberIn cfg m x s) (result ++ [(m, x)]) := by
+  refine ⟨by simpa using h.1, fun k hk => ?_⟩
+  obtain ⟨y, hy, hor⟩ := h.2 k hk
+  refine ⟨y, by simpa using hy, ?_⟩
+  rw [announceMemberIn_mem, lookup_set, lookup_append_single]
+  by_cases hkm : k = m
+  · subst hkm
+    right
+    exact ⟨x, by simp [hn], by simp⟩
+  · simp only [hkm, if_false]
+    rcases hor with hm | ⟨x', hx', hm⟩
+    · exact Or.inl hm
+    · exact Or.inr ⟨x', by simp [hx'], hm⟩
+
+/-- the access takes a value for `m` without announcing anything (a cache read): the member still shows what the struct has -/
+theorem loose_push_same (cfg : Cfg) (s : St) (result : Dict) (m : String) (x : Val) (h : Loose cfg s result) :
+    Loose cfg s (result ++ [(m, x)]) := by
+  refine ⟨h.1, fun k hk => ?_⟩
+  obtain ⟨y, hy, hor⟩ := h.2 k hk
+  refine ⟨y, hy, ?_⟩
+  rw [lookup_append_single]
+  rcases hor with hm | ⟨x', hx', hm⟩
+  · exact Or.inl hm
+  · exact Or.inr ⟨x', by simp [hx'], hm⟩
+
+theorem linvO_readIter (cfg : Cfg) (r : String → RRes Val) (ov : Overlap) (done : List String) (m : String) (l : Loop)
+    (hm : m ∉ done) (h : LInvO cfg done l) : LInvO cfg (done ++ [m]) (readIterO cfg r ov l m) := by
+  have hn := linvO_fresh cfg done m l h hm
+  have h1 : Loose cfg (interrupt cfg (ov.before m) l.st) l.result := loose_interrupt cfg _ _ _ h.1
+  simp only [readIterO]
+  split
+  · rename_i hs; exact linvO_keep cfg done m l l h h.1 rfl hs
+  · rename_i hs
+    have hs' : l.stop = false := by simpa using hs
+    split
+    · split
+      · exact linvO_keep cfg done m l _ h (loose_congr cfg _ (by simp) (by simp) h1) rfl rfl
+      · exact linvO_push cfg done m _ l _ h hs' (loose_push_set cfg _ _ m _ h1 hn) rfl
+    · split
+      · exact linvO_keep cfg done m l _ h h1 rfl rfl
+      · exact linvO_push cfg done m _ l _ h hs' (loose_push_same cfg _ _ m _ h1) rfl
+
+theorem linvO_writeIter (cfg : Cfg) (v : Dict) (w : String → WRes Val) (ov : Overlap) (done : List String) (m : String)
+    (l : Loop) (hm : m ∉ done) (h : LInvO cfg done l) : LInvO cfg (done ++ [m]) (writeIterO cfg v w ov l m) := by
+  have hn := linvO_fresh cfg done m l h hm
+  have h1 : Loose cfg (interrupt cfg (ov.before m) l.st) l.result := loose_interrupt cfg _ _ _ h.1
+  simp only [writeIterO]
+  split
+  · rename_i hs; exact linvO_keep cfg done m l l h h.1 rfl hs
+  · rename_i hs
+    have hs' : l.stop = false := by simpa using hs
+    split
+    · exact linvO_keep cfg done m l _ h h1 rfl rfl
+    · split
+      · split
+        · exact linvO_keep cfg done m l _ h h1 rfl rfl
+        · exact linvO_push cfg done m _ l _ h hs' (loose_push_set cfg _ _ m _ h1 hn) rfl
+        · exact linvO_push cfg done m _ l _ h hs' (loose_push_set cfg _ _ m _ h1 hn) rfl
+      · exact linvO_push cfg done m _ l _ h hs' (loose_push_set cfg _ _ m _ h1 hn) rfl
+
+theorem foldl_members {P : List String → Loop → Prop} (f : Loop → String → Loop)
+    (hf : ∀ done m l, m ∉ done → P done l → P (done ++ [m]) (f l m)) :
+    ∀ (ms done : List String) (l : Loop), (done ++ ms).Nodup → P done l → P (done ++ ms) (ms.foldl f l) := by
+  intro ms
+  induction ms with
+  | nil => intro done l _ h; simpa using h
+  | cons m ms ih =>
+    intro done l hn h
+    have hm : m ∉ done := by
+      intro hc
+      have := (List.nodup_append.1 hn).2.2 m hc m List.mem_cons_self
+      exact this rfl
+    have := ih (done ++ [m]) (f l m) (by simpa using hn) (hf done m l hm h)
+    simpa using this
+
+theorem inv_finishLoopO (cfg : Cfg) (isRead : Bool) (ov : Overlap) (l : Loop) (hl : LInvO cfg cfg.members l)
+    (hnd : cfg.members.Nodup) : Inv cfg (finishLoopO cfg isRead ov l) := by
+  obtain ⟨h1, h2, _⟩ := hl
+  have hrn : (l.result.map Prod.fst).Nodup := by
+    rw [h2]; exact List.Nodup.sublist (List.take_sublist _ _) hnd
+  have hL1 : Loose cfg (interrupt cfg ov.atEnd l.st) l.result := loose_interrupt cfg _ _ _ h1
+  have hL2 : Loose cfg (interrupt cfg ov.afterRead (interrupt cfg ov.atEnd l.st)) l.result := loose_interrupt cfg _ _ _ hL1
+  simp only [finishLoopO]
+  split
+  · -- a member failed: the struct is re-synchronised with the partial result, merged into the value read before
+    have hwf : wf cfg (Dict.merge (interrupt cfg ov.atEnd l.st).struct l.result) = true := by
+      rw [wf_iff, keys_merge]
+      · exact (wf_iff cfg _).1 hL1.1
+      · intro e he
+        have : e.1 ∈ l.result.map Prod.fst := List.mem_map_of_mem he
+        rw [h2] at this
+        rw [(wf_iff cfg _).1 hL1.1]
+        exact List.mem_of_mem_take this
+    have key : Inv cfg (assignStruct cfg (Dict.merge (interrupt cfg ov.atEnd l.st).struct l.result)
+        (interrupt cfg ov.afterRead (interrupt cfg ov.atEnd l.st))) := by
+      unfold assignStruct
+      rw [if_pos hwf]
+      rcases announceStruct_cases cfg _ (interrupt cfg ov.afterRead (interrupt cfg ov.atEnd l.st)) hwf with ⟨he, hs⟩ | hi
+      · rw [he]
+        exact agree_of_loose cfg _ l.result hL2 (fun k x hr => by rw [hs]; exact lookup_merge l.result k x hrn hr _)
+      · exact hi
+    exact inv_congr cfg (by simp) (by simp) (inv_interrupt cfg ov.beforeErr _ key)
+  · rename_i hlen
+    have hwf : wf cfg l.result = true := by
+      rw [wf_iff, h2]
+      apply List.take_of_length_le
+      omega
+    rw [if_pos hwf]
+    apply inv_congr cfg (fine_struct _) (fine_mem _)
+    rcases announceStruct_cases cfg l.result (interrupt cfg ov.afterRead (interrupt cfg ov.atEnd l.st)) hwf with ⟨he, hs⟩ | hi
+    · rw [he]
+      exact agree_of_loose cfg _ l.result hL2 (fun k x hr => by rw [hs]; exact hr)
+    · exact hi
+
+theorem inv_readStructO (cfg : Cfg) (r : String → RRes Val) (ov : Overlap) (s : St) (h : Inv cfg s) (hnd : cfg.members.Nodup) :
+    Inv cfg (readStructO cfg r ov s) := by
+  unfold readStructO
+  apply inv_finishLoopO cfg true ov _ _ hnd
+  have := foldl_members (P := LInvO cfg) (readIterO cfg r ov)
+    (fun done m l hm hl => linvO_readIter cfg r ov done m l hm hl) cfg.members []
+    { st := s } (by simpa using hnd) ⟨loose_of_inv cfg s [] h, by simp, fun _ => by simp⟩
+  simpa using this
+
+theorem inv_writeStructO (cfg : Cfg) (v : Dict) (w : String → WRes Val) (ov : Overlap) (s : St) (h : Inv cfg s)
+    (hnd : cfg.members.Nodup) : Inv cfg (writeStructO cfg v w ov s) := by
+  unfold writeStructO
+  split
+  · exact h
+  · apply inv_finishLoopO cfg false ov _ _ hnd
+    have := foldl_members (P := LInvO cfg) (writeIterO cfg v w ov)
+      (fun done m l hm hl => linvO_writeIter cfg v w ov done m l hm hl) cfg.members []
+      { st := s } (by simpa using hnd) ⟨loose_of_inv cfg s [] h, by simp, fun _ => by simp⟩
+    simpa using this
+
+theorem inv_readMemberAV (cfg : Cfg) (m : String) (r : RRes Dict) (iv : List (List AOp)) (k : Nat) (s : St) (h : Inv cfg s)
+    (hm : m ∈ cfg.members) : Inv cfg (readMemberAV cfg m r iv k s).1 := by
+  have h1 := inv_readStructC cfg r _ (inv_interrupt cfg (ivAt iv k) s h)
+  have h2 := inv_interrupt cfg (ivAt iv (k + 1)) _ h1
+  simp only [readMemberAV]
+  split
+  · exact inv_congr cfg (by simp) (by simp) h2
+  · split
+    · exact inv_congr cfg (by simp) (by simp) h2
+    · exact inv_congr cfg (fine_struct _) (fine_mem _) (inv_announceMember cfg m _ _ h2 hm)
+
+theorem inv_readMemberBV (cfg : Cfg) (m : String) (rB : RRes Val) (iv : List (List AOp)) (k : Nat) (s : St) (h : Inv cfg s)
+    (hm : m ∈ cfg.members) : Inv cfg (readMemberBV cfg m rB iv k s).1 := by
+  have h0 := inv_interrupt cfg (ivAt iv k) s h
+  simp only [readMemberBV]
+  cases rB with
+  | fail e => exact inv_congr cfg (by simp) (by simp) h0
+  | ok x => exact inv_congr cfg (fine_struct _) (fine_mem _) (inv_announceMember cfg m x _ h0 hm)
+
+theorem inv_writeMemberAO (cfg : Cfg) (m : String) (v : Val) (w : WRes Dict) (r : RRes Dict) (rB : RRes Val)
+    (iv : List (List AOp)) (s : St) (h : Inv cfg s) (hm : m ∈ cfg.members) : Inv cfg (writeMemberAO cfg m v w r rB iv s) := by
+  have ha := inv_interrupt cfg (ivAt iv 0) s h
+  have h1 := inv_writeStructC cfg ((interrupt cfg (ivAt iv 0) s).struct.set m v) w _ (inv_interrupt cfg (ivAt iv 1) _ ha)
+  have key : ∀ (sr : St × Option Val) (k : Nat), Inv cfg sr.1 →
+      Inv cfg (if !sr.1.ok then sr.1 else
+        match sr.2 with
+        | none => failed sr.1
+        | some x => fine (announceMember cfg m x (interrupt cfg (ivAt iv k) sr.1))) := by
+    intro sr k hsr
+    split
+    · exact hsr
+    · split
+      · exact inv_congr cfg (by simp) (by simp) hsr
+      · exact inv_congr cfg (fine_struct _) (fine_mem _) (inv_announceMember cfg m _ _ (inv_interrupt cfg _ _ hsr) hm)
+  simp only [writeMemberAO]
+  split
+  · exact h1
+  · by_cases hR : cfg.hasR m = true
+    · simp only [hR, ↓reduceIte]
+      exact key _ 3 (inv_readMemberBV cfg m rB iv 2 _ h1 hm)
+    · simp only [hR]
+      exact key _ 4 (inv_readMemberAV cfg m r iv 2 _ h1 hm)
+
+theorem inv_ostep (cfg : Cfg) (hnd : cfg.members.Nodup) (s : St) (op : OOp) (h : Inv cfg s) : Inv cfg (ostep1 cfg s op) := by
+  have h' : Inv cfg { s with evs := [], exc := none } := h
+  cases op with
+  | seq op => exact inv_step cfg hnd s op h
+  | readStructO rA rB ov =>
+    simp only [ostep1, ostep]
+    split
+    · exact inv_readStructC cfg rA _ (inv_interrupt cfg _ _ h')
+    · exact inv_readStructO cfg rB ov _ h' hnd
+  | writeStructO v wA wB ov =>
+    simp only [ostep1, ostep]
+    split
+    · exact inv_writeStructC cfg v wA _ (inv_interrupt cfg _ _ h')
+    · exact inv_writeStructO cfg v wB ov _ h' hnd
+  | readMemberO m rA iv =>
+    simp only [ostep1, ostep]
+    split
+    · rename_i hc
+      simp only [Bool.and_eq_true, List.contains_iff_mem] at hc
+      exact inv_readMemberAV cfg m rA iv 0 _ h' hc.1.1
+    · exact h'
+  | writeMemberO m v wA rA rB iv =>
+    simp only [ostep1, ostep]
+    split
+    · rename_i hc
+      simp only [Bool.and_eq_true, List.contains_iff_mem] at hc
+      exact inv_writeMemberAO cfg m v wA rA rB iv _ h' hc.1.1
+    · exact h'
+
+theorem inv_oexec (cfg : Cfg) (hnd : cfg.members.Nodup) (ops : List OOp) : ∀ s, Inv cfg s → Inv cfg (oexec cfg s ops) := by
+  induction ops with
+  | nil => intro s h; exact h
+  | cons op ops ih => intro s h; exact ih _ (inv_ostep cfg hnd s op h)
+
 /-! ## float / enum -/
 
 theorem lookup_of_mem_nodup : ∀ (l : List (Int × Val)) (i : Int) (v : Val),
